@@ -93,6 +93,14 @@ use std::sync::mpsc::{Receiver, SyncSender, sync_channel};
 use std::sync::{Arc, Mutex};
 use std::thread;
 
+/// Verification-only probe point (see `crate::verif`); compiles to nothing
+/// without the `verif-hooks` feature.
+#[inline(always)]
+fn probe(_point: &'static str) {
+    #[cfg(feature = "verif-hooks")]
+    crate::verif::probe(_point);
+}
+
 /// The SVS contract version this implementation speaks, reported in the `open`
 /// response and validated by the client.
 pub const SVS_VERSION: u8 = 1;
@@ -971,7 +979,9 @@ where
             io::copy(reader, &mut hold)?;
             hold.into_trailer()?
         };
+        probe("svs.before_flush");
         guard.file_mut().flush()?;
+        probe("svs.before_sync");
         guard.file_mut().sync_all()?;
         Ok((guard, digest, trailer))
     })?;
@@ -1195,7 +1205,9 @@ where
                 "svs: stream ended without a final chunk",
             )));
         }
+        probe("svs.before_flush");
         guard.file_mut().flush()?;
+        probe("svs.before_sync");
         guard.file_mut().sync_all()?;
         Ok(())
     })();
@@ -1242,8 +1254,10 @@ impl TempFile {
 
     fn commit(mut self, final_path: &Path) -> Result<(), RepeError> {
         self.file = None; // close before rename (Windows cannot rename an open file)
+        probe("svs.before_rename");
         match std::fs::rename(&self.path, final_path) {
             Ok(()) => {
+                probe("svs.after_rename");
                 self.path = final_path.to_path_buf(); // committed; Drop must not remove it
                 Ok(())
             }
@@ -1309,6 +1323,7 @@ impl<'a> ChunkReader<'a> {
         let last = resp.query.first().copied() == Some(1);
         self.buf = resp.body;
         self.pos = 0;
+        probe("svs.chunk");
         if last {
             self.last_seen = true;
             self.finished = true;
@@ -1510,6 +1525,7 @@ async fn pull_loop_async<C: AsyncSvsClient>(
             )
             .await?;
         let last = resp.query.first().copied() == Some(1);
+        probe("svs.chunk");
         if !resp.body.is_empty() && tx.send(resp.body).await.is_err() {
             // Decoder is done and dropped the receiver; nothing left to feed.
             return Ok(());
@@ -1796,7 +1812,9 @@ pub async fn pull_to_file_async<C: AsyncSvsClient>(
     let (guard, bytes) = pull_consume_async(client, resource, move |mut reader| {
         let mut guard = TempFile::create(&tmp_path)?;
         let bytes = io::copy(&mut reader, guard.file_mut())?;
+        probe("svs.before_flush");
         guard.file_mut().flush()?;
+        probe("svs.before_sync");
         guard.file_mut().sync_all()?;
         Ok((guard, bytes))
     })
@@ -1841,7 +1859,9 @@ where
             };
             io::copy(&mut reader, &mut tee)?;
         }
+        probe("svs.before_flush");
         guard.file_mut().flush()?;
+        probe("svs.before_sync");
         guard.file_mut().sync_all()?;
         Ok((guard, digest))
     })
@@ -1915,7 +1935,9 @@ where
             io::copy(&mut reader, &mut hold)?;
             hold.into_trailer()?
         };
+        probe("svs.before_flush");
         guard.file_mut().flush()?;
+        probe("svs.before_sync");
         guard.file_mut().sync_all()?;
         Ok((guard, digest, trailer))
     })
